@@ -93,7 +93,46 @@ def compile_tree(t, extra, out, nin_total):
             return False
         e += 1
     out.append((name, None))
+    if len(t) > 3:
+        out.extend(t[3])      # tap: a second consumer of this intermediate value (net stack effect 0)
     return True
+
+
+def add_tap(rnd, t):
+    """Give one inner operation of the tree a second consumer (its value is duplicated and stored, possibly
+    through another operation), so that rules which delete or rewrite an intermediate instruction meet a
+    value that is still needed elsewhere."""
+    inner = []
+
+    def walk(n, root):
+        if n[0] == "op":
+            if not root:
+                inner.append(n)
+            for c in n[2]:
+                walk(c, False)
+    walk(t, True)
+    if not inner:
+        return t
+    target = rnd.choice(inner)
+    a = ("PUSH", hexv(rnd.choice(SMALL_ADDRS)))
+    st = (rnd.choice(["MSTORE", "SSTORE", "MSTORE8"]), None)
+    r = rnd.random()
+    if r < 0.3:
+        code = [("DUP1", None), a, st]
+    elif r < 0.55:
+        code = [("DUP1", None), (rnd.choice(UN), None), a, st]
+    elif r < 0.8:
+        code = [("DUP1", None), ("PUSH", hexv(rand_const(rnd))), (rnd.choice(BIN), None), a, st]
+    else:
+        code = [("DUP1", None), ("DUP1", None), (rnd.choice(BIN), None), a, st]
+
+    def rebuild(n):
+        if n is target:
+            return ("op", n[1], [rebuild(c) for c in n[2]], code)
+        if n[0] == "op":
+            return ("op", n[1], [rebuild(c) for c in n[2]]) + tuple(n[3:])
+        return n
+    return rebuild(t)
 
 
 # Patterns written from reading the rule code: left-hand sides of every conditional rule,
@@ -168,6 +207,8 @@ def gen_rule_block(rnd, hostile=False):
         t = _wrap(rnd, _P(rnd, nin), nin)
         if rnd.random() < 0.15:
             t = ("op", rnd.choice(BIN), [t, _wrap(rnd, _P(rnd, nin), nin)])
+        if rnd.random() < 0.25:
+            t = add_tap(rnd, t)
         code = []
         if not compile_tree(t, extra, code, nin):
             continue
